@@ -507,7 +507,12 @@ StoreOf(sid) == CASE sid = "R" -> StoreR [] sid = "T" -> StoreT [] sid = "I" -> 
                   [] sid = "J" -> StoreJ [] sid = "O" -> StoreO [] sid = "M" -> StoreM [] sid = "G" -> StoreG [] sid = "Z" -> StoreZ [] sid = "X" -> StoreX [] sid = "BA" -> StoreBA [] sid = "B" -> StoreB [] sid = "V" -> StoreV [] sid = "S40" -> SeqStore(40) [] sid = "S7" -> SeqStore(7) [] sid \in {"K" \o ToString(n) : n \in 1..5} -> StoreK(CHOOSE n \in 1..5 : "K" \o ToString(n) = sid) [] sid \in {SizeId(n) : n \in 0..100} -> SeqStore(CHOOSE n \in 0..100 : SizeId(n) = sid) [] OTHER -> <<>>
 StoreIds == {"T", "I", "F", "E", "J", "V", "O", "G", "M", "Z", "B", "X", "BA", "R", "S40", "S7"} \cup {SizeId(n) : n \in SizesSmall \cup SizesBig} \cup {"K" \o ToString(n) : n \in 1..5}
 
-Cases == CASE Mode = "c01" -> C01Cases [] Mode = "pt" -> PtCases [] Mode = "c10" -> C10Cases [] Mode = "c04" -> C04Cases [] Mode = "c08" -> C08Select [] Mode = "c08d" -> C08Delete [] Mode = "c07" -> C07Cases [] Mode = "c09" -> C09Cases [] Mode = "c05" -> C05Cases [] Mode = "c05k" -> C05KCases [] OTHER -> {}
+\* c15x: statements whose optimised filter, as EXPLAIN prints it, can be written back in the language (no negative number,
+\* no bare Boolean operand): it must be accepted again and select the same rows
+C15XCases == { [st |-> Select(<<>>, w, <<>>, <<>>, NoLim), sid |-> "I"] :
+                 w \in NumChains \cup { ABin(op, x, y) : op \in {"&", "or"}, x \in NumChains, y \in {ABin("^=", AKey, AStr(a)), ABin(">", ABin("+", IV, AInt(1)), ABin("*", AInt(1), AInt(2)))} }
+                      \cup { ABin("=", ABin(o2, ABin(o1, IV, AInt(5)), AInt(2)), AInt(n)) : o1 \in {"+", "-", "*"}, o2 \in {"+", "-", "*"}, n \in {0, 3, 10} } }
+Cases == CASE Mode = "c15x" -> C15XCases [] Mode = "c01" -> C01Cases [] Mode = "pt" -> PtCases [] Mode = "c10" -> C10Cases [] Mode = "c04" -> C04Cases [] Mode = "c08" -> C08Select [] Mode = "c08d" -> C08Delete [] Mode = "c07" -> C07Cases [] Mode = "c09" -> C09Cases [] Mode = "c05" -> C05Cases [] Mode = "c05k" -> C05KCases [] OTHER -> {}
 
 \* enumeration is split so that TLC's workers share it: Init picks a partition, Next a case of it
 FieldTag(c) == IF Len(c.st.fields) >= 2 THEN <<c.st.fields[2].e.k, c.st.fields[2].e.op, Len(c.st.fields[2].e.a)>> ELSE <<>>
